@@ -28,18 +28,18 @@ func init() {
 }
 
 func runC03(c *core.Ctx) {
-	ruleEmissionLiterals(c, "C03-R1")
-	ruleOffsetCapture(c, "C03-R2")
-	ruleXRefStreamRows(c, "C03-R3")
-	ruleObjStmHeader(c, "C03-R4")
-	ruleEncOffBeforeXRef(c, "C03-R5")
-	ruleInStreamGuards(c, "C03-R6")
-	ruleSeparators(c, "C03-R7") // tokens must stay separated for an independent tokenizer too
-	rulePredictorGeometry(c, "C03-R8")
-	ruleTrailerSizeLast(c)
-	ruleObjStmSlots(c, "C03-R10")
-	ruleLoopCarriedTemplates(c, "C03-R11", "pdf")
-	rulePaeth(c, "C03-R8") // PNG-predicted stream data (xref streams, user streams) must be decodable by any reader
+	c.Guard(func() { ruleEmissionLiterals(c, "C03-R1") })
+	c.Guard(func() { ruleOffsetCapture(c, "C03-R2") })
+	c.Guard(func() { ruleXRefStreamRows(c, "C03-R3") })
+	c.Guard(func() { ruleObjStmHeader(c, "C03-R4") })
+	c.Guard(func() { ruleEncOffBeforeXRef(c, "C03-R5") })
+	c.Guard(func() { ruleInStreamGuards(c, "C03-R6") })
+	c.Guard(func() { ruleSeparators(c, "C03-R7") }) // tokens must stay separated for an independent tokenizer too
+	c.Guard(func() { rulePredictorGeometry(c, "C03-R8") })
+	c.Guard(func() { ruleTrailerSizeLast(c) })
+	c.Guard(func() { ruleObjStmSlots(c, "C03-R10") })
+	c.Guard(func() { ruleLoopCarriedTemplates(c, "C03-R11", "pdf") })
+	c.Guard(func() { rulePaeth(c, "C03-R8") }) // PNG-predicted stream data (xref streams, user streams) must be decodable by any reader
 }
 
 // literalsWritten collects constant strings written in fn (format strings of
@@ -970,13 +970,14 @@ func ruleXRefStreamRows(c *core.Ctx, rule string) {
 					tb = append(tb, v)
 				}
 				if cs.Key == "pdf.encodeInt64" && len(cs.Call.Args) == 3 {
-					switch core.ObjOf(info, cs.Call.Args[2]) {
+					_, widthArg := encArgs(info, cs.Call)
+					switch core.ObjOf(info, widthArg) {
 					case w2:
 						f2 = append(f2, v)
 					case w3:
 						f3 = append(f3, v)
 					default:
-						o.FailAt(fn.Site(cs.Call, ""), "field written with width %s, want w2 or w3", core.ExprStr(cs.Call.Args[2]))
+						o.FailAt(fn.Site(cs.Call, ""), "field written with width %s, want w2 or w3", core.ExprStr(widthArg))
 					}
 				}
 			}
@@ -2026,7 +2027,8 @@ func xrefWidthVars(fn *core.Func) (w2, w3 types.Object) {
 		}
 		for _, call := range core.CallsTo(info, v.AST, false, "pdf.encodeInt64") {
 			if len(call.Args) == 3 {
-				ems = append(ems, em{v, core.ObjOf(info, call.Args[2])})
+				_, widthArg := encArgs(info, call)
+				ems = append(ems, em{v, core.ObjOf(info, widthArg)})
 			}
 		}
 	}
@@ -2187,7 +2189,7 @@ func ruleLoopCarriedTemplates(c *core.Ctx, rule string, shortPkg string) {
 												full = true
 											} else if lo := core.ObjOf(info, lc.Args[0]); lo == nil {
 												// len(w.buf) with buf := w.buf
-												if vc := valueCases(g, v, ast.NewIdent(obj.Name()), 1); len(vc) == 1 {
+												if vc := valueCases(g, v, ast.NewIdent(core.VarName(obj)), 1); len(vc) == 1 {
 													_ = vc
 												}
 												for _, d := range defVertices(g, obj) {
@@ -2200,7 +2202,7 @@ func ruleLoopCarriedTemplates(c *core.Ctx, rule string, shortPkg string) {
 									}
 								}
 								if full {
-									fills[obj] = append(fills[obj], use{v, obj.Name(), cs.Call})
+									fills[obj] = append(fills[obj], use{v, core.VarName(obj), cs.Call})
 								}
 							}
 							if obj := whole(a); obj != nil && !writes && !strings.HasPrefix(cs.Key, "builtin.") {
@@ -2254,7 +2256,7 @@ func ruleLoopCarriedTemplates(c *core.Ctx, rule string, shortPkg string) {
 						var same []*core.V
 						for _, f2 := range fs {
 							// the same part, or the whole buffer (which covers every part of it)
-							if f2.target == f.target || f2.target == obj.Name() {
+							if f2.target == f.target || f2.target == core.VarName(obj) {
 								same = append(same, f2.v)
 							}
 						}
